@@ -1,7 +1,7 @@
 CONSTANTS HW = 10
-          Margins = {21, 2}
+          Margins = {21}
           Anchors = {1, 2}
           NMax = 8
-          GenMod = 32
+          GenMod = 24
 INIT Init
 NEXT EvalGen
